@@ -385,6 +385,23 @@ func haltInChild(r *simrt.Run) {
 		}
 	}
 	r.Logf("child: exit=%d enforcement=%d last-alive-height=%d", code, enforcement, lastAlive)
+	if strings.Contains(out, "C17CHILD late-receive") {
+		// the activation's receive was confirmed only after the height it announces: the node must stop when
+		// that momentum goes in (and refuse to start again), not run on
+		if strings.Contains(out, "C17CHILD restart failed") {
+			r.Skip("child-restart-failed")
+			return
+		}
+		if strings.Contains(out, "C17CHILD survived") || code != 2 {
+			r.Fail("unimplemented-spork-not-halted", "late-receive", "a node kept running (status %d, last height %d) although an unimplemented spork was enforced by a receive confirmed after its enforcement height:\n%s", code, lastAlive, tail(out, 600))
+		}
+		code, out = run("restart")
+		if strings.Contains(out, "restart survived") || code != 2 {
+			r.Fail("unimplemented-spork-not-halted", "restart", "restart on the halted database ended with status %d:\n%s", code, tail(out, 400))
+		}
+		r.Probe("halt-in-child-verified-late-receive")
+		return
+	}
 	if enforcement == 0 {
 		r.Skip("child-did-not-activate")
 		return
